@@ -178,8 +178,8 @@ P["C18"] = {
 P["C19"] = {
     "common": {"validate": 6, "timeout_ms": 60000, "runs": [{"pattern": "verifHarness_C19_", "label_filter": "C19:"}]},
     "thorough": {"validate": 16},
-    "bounds": "date read: every int32 day count; long read: every long l with |l*unit| < 2^63 for unit in {10^6 (timestamp-millis), 10^3 (timestamp-micros), 1 (plain long = nanoseconds)}: the decoded time's UnixNano is exactly l*unit, normalised, UTC; date write: every instant with |unix seconds| <= 2^24 (thorough 2^36, about +-2177 years), any nanosecond: the stored integer n satisfies n*86400 <= sec < (n+1)*86400 (floor, also before 1970) and reads back as midnight of day n; long write: same instants, the stored integer is sec*units_per_second + nsec/unit (floor). Round trip of the long types follows by composition (Write stores floor(t/unit); every n decodes to n*unit). The written time is presented in UTC or in a fixed zone with an arbitrary offset of up to +-14 h (the stored integer depends on the instant only). A time field under [null, T] for T in {timestamp-millis, timestamp-micros, plain long, date}: every non-zero instant in three windows of 2^20 s (around the epoch, and at either end of the int64-nanosecond range, 1677 and 2262) is written as the non-null branch followed by exactly what the plain codec writes. Time-model validation: 24 boundary dates x 4 zone offsets through time.Date and every accessor, each observed value compared with the native standard library",
-    "outside": "write direction beyond +-2^24 s (quick) / +-2^36 s (thorough) of the epoch: wider ranges make the bit-blasted multiplications and divisions by 86400 and 10^k time out in z3, z3-new and cvc5 (60 s); the direct long round-trip query is replaced by the composition above",
+    "bounds": "date read: every int32 day count; long read: every long l with |l*unit| < 2^63 for unit in {10^6 (timestamp-millis), 10^3 (timestamp-micros), 1 (plain long = nanoseconds)}: the decoded time's UnixNano is exactly l*unit, normalised, UTC; date write: every instant with |unix seconds| <= 2^24 (thorough 2^32, about +-136 years), any nanosecond: the stored integer n satisfies n*86400 <= sec < (n+1)*86400 (floor, also before 1970) and reads back as midnight of day n; long write: same instants, the stored integer is sec*units_per_second + nsec/unit (floor). Round trip of the long types follows by composition (Write stores floor(t/unit); every n decodes to n*unit). The written time is presented in UTC or in a fixed zone with an arbitrary offset of up to +-14 h (the stored integer depends on the instant only). A time field under [null, T] for T in {timestamp-millis, timestamp-micros, plain long, date}: every non-zero instant in three windows of 2^20 s (around the epoch, and at either end of the int64-nanosecond range, 1677 and 2262) is written as the non-null branch followed by exactly what the plain codec writes. Time-model validation: 24 boundary dates x 4 zone offsets through time.Date and every accessor, each observed value compared with the native standard library",
+    "outside": "write direction beyond +-2^24 s (quick) / +-2^32 s (thorough; 2^36 ran clean before the written time was given an arbitrary zone, with it z3 4.8.12 answers unknown on one path while z3 5.1 decides it - registered bound reduced) of the epoch: wider ranges make the bit-blasted multiplications and divisions by 86400 and 10^k time out in z3, z3-new and cvc5 (60 s); the direct long round-trip query is replaced by the composition above",
     "assumptions": A_CORE[:2] + A_TIME,
 }
 
